@@ -96,6 +96,18 @@ MUTANTS = [
     ("C15", "unified_planning/model/walkers/type_checker.py",
      "        return self.environment.type_manager.IntType(\n            expression.constant_value(), expression.constant_value()\n        )",
      "        return self.environment.type_manager.IntType(\n            expression.constant_value(), None\n        )", "walk_identity_int"),
+    ("C17", "unified_planning/model/walkers/linear_checker.py",
+     "        negative_fluents |= spf\n        positive_fluents |= snf", "        positive_fluents |= spf\n        negative_fluents |= snf", "walk_minus"),
+    ("C17", "unified_planning/model/walkers/linear_checker.py",
+     "            return (is_linear, negative_fluents, positive_fluents)\n        else:\n            fluents = positive_fluents | negative_fluents\n            return (is_linear, fluents, fluents)\n\n    def walk_minus",
+     "            return (is_linear, positive_fluents, negative_fluents)\n        else:\n            fluents = positive_fluents | negative_fluents\n            return (is_linear, fluents, fluents)\n\n    def walk_minus", "walk_div"),
+    ("C17", "unified_planning/model/walkers/linear_checker.py",
+     "        return (is_linear, {expression}, set())", "        return (is_linear, set(), {expression})", "walk_fluent_exp"),
+    ("C17", "unified_planning/model/walkers/linear_checker.py",
+     "                else:  # Second argument that contains fluent_expressions\n                    is_linear = False",
+     "                else:  # Second argument that contains fluent_expressions\n                    is_linear = is_linear and len(spf & snf) == 0", "walk_times"),
+    ("C17", "unified_planning/model/walkers/linear_checker.py",
+     "            and len(denominator_positive_fluents) == 0\n", "", "walk_div"),
     ("C11", "unified_planning/model/walkers/simplifier.py",
      "            return self.manager.Bool(not l)", "            return self.manager.Bool(l)", "walk_not"),
 ]
